@@ -18,6 +18,9 @@ CUR = ["A(0) S(0,0,1) T(0,1) C(0) A(1) T(1,1) Y(1,0) R(0,1,0) Z", "A(0) S(0,0,1)
        "A(0) S(0,0,1) T(0,1) Y(0,2) Y(0,4)", "A(0) S(0,0,1) R(0,1,1) R(0,2,0)", "R(0,0,0) Z", "A(0) S(0,0,1) T(0,1) K(70000) Y(0,5) Y(0,0) R(0,1,0)"]
 # the resend timer exactly at / one tick after its deadline (default resend time 60 s), first copy unanswered on a live connection
 CUR += ["A(0) S(0,0,1) T(0,1) K(60000) T(0,1) Z", "A(0) S(0,0,1) T(0,1) K(59999) K(1) T(0,1) Z", "A(0) S(0,0,1) K(60000) T(0,1) K(60000) Z", "A(0) A(1) S(0,0,1) T(0,1) K(60000) T(1,1) Z"]
+# two contexts with different resend times: the one issued LATER is due FIRST (the retry list is in issue order, not deadline order)
+CUR2 = ["A(0) S(0,0,1) T(0,1) O(1,100) S(1,1,1) T(0,1) K(150) T(0,1) Z", "A(0) O(1,100) S(0,0,1) T(0,1) S(1,1,1) T(0,1) K(100) Z",
+        "A(0) O(0,100) S(0,0,1) T(0,1) S(1,1,1) T(0,1) K(100) T(0,1) Z", "A(0) O(1,50) S(0,0,1) T(0,1) S(1,1,1) T(0,1) K(50) T(0,1) K(50) T(0,1) Z"]
 ALPHA = ["A(0)", "A(1)", "S(0,%d,1)", "T(0,1)", "T(0,0)", "T(1,1)", "C(0)", "K(70000)", "K(10)", "O(0,-1)", "Y(0,0)", "R(0,%d,1)"]
 
 
@@ -31,6 +34,9 @@ def queries(tier):
         seen.add(w)
         qs.append(Query("req12-" + skel.tag(w), "c04/req.c", tus=C04.TUS, env=C04.ENV, defs={"SKEL": w}, unwind=10, unwind_rules=KIT_RULES,
                         timeout=300, params={"protocol": "req0", "skeleton": w}))
+    for w in CUR2:
+        qs.append(Query("req12-2ctx-" + skel.tag(w), "c04/req.c", tus=C04.TUS, env=C04.ENV, defs={"SKEL": w, "TWOCTX": 1}, unwind=10, unwind_rules=KIT_RULES,
+                        timeout=300, params={"protocol": "req0", "contexts": 2, "skeleton": w}))
     return qs
 
 MANIFEST = {
